@@ -118,6 +118,28 @@ def rule_SQ1(ctx, tier):
             rr.ok("%s: create_tables on every successful construction" % shortfn(fn))
         else:
             rr.fail("schema-not-ensured:%s" % shortfn(fn), "`%s` can return Ok without having run create_tables: a database file that exists without its (complete) schema — e.g. after a crash right after the file was created — is never repaired and every later start fails" % shortfn(fn), where=b.span)
+    # the connection is sqlite's default one apart from foreign keys: nothing in the three crates lowers a limit, switches a
+    # journalling / synchronisation mode or sets another pragma (a value cap refuses the one thing the tower stores that no API
+    # limit bounds — the dispute transaction of a tracker; synchronous / journal_mode changes void the crash guarantees of SQ3)
+    P = ctx.prog
+    CONF = ("set_limit", "set_db_config", "pragma_update", "pragma_update_and_check", "busy_handler", "set_prepared_statement_cache_capacity")
+    tuned = []
+    for bid, b_ in P.bodies.items():
+        if not bid.startswith(("teos::", "teos_common::", "watchtower_plugin::", "<teos", "<T as teos_common", "<watchtower")) or "::tests" in bid or "test_utils" in bid:
+            continue
+        for bb, t in b_.calls():
+            tg_ = call_target(t) or ""
+            if "rusqlite" in tg_ and tg_.split("::")[-1] in CONF:
+                tuned.append((b_, bb, tg_.split("::")[-1]))
+        for bb, st in sql.body_sql(b_):
+            u_ = st.upper().replace(" ", "")
+            if u_.startswith("PRAGMA") and not u_.startswith("PRAGMAFOREIGN_KEYS"):
+                tuned.append((b_, bb, st[:40]))
+    if not tuned:
+        rr.ok("no sqlite limit, mode or pragma other than foreign_keys is configured anywhere")
+    for b_, bb, what in tuned:
+        rr.fail("connection-tuned:%s" % what.split("(")[0].replace(" ", "_")[:30], "`%s` configures the sqlite connection with `%s`: the tables hold values no API limit bounds (a tracker's dispute transaction), and the transaction guarantees the checks rely on are those of sqlite's default modes" % (shortfn(b_.id), what), where=b_.line_of(bb))
+
     rr.require_floor(24, "SQ1 instances")
     return rr
 
